@@ -681,4 +681,26 @@ theorem validateTreeRoot_src (s : Store) (i : Nat) :
 
 theorem validateTreeRoot_nil : Src.validateTreeRoot none = some .ErrNilNode := rfl
 
+
+/-- **`Node.isDirectlyUnder` of node.go**: a node is directly under another iff its hierarchy is one more; under
+    nil, never.  (`stack.dfs` pops until this holds — the model's `closeTo (h - 1)`; when no open node qualifies
+    the item is "nested more than one level deeper".) -/
+theorem isDirectlyUnder_src (h h' : Nat) (t t' : T) :
+    Src.Node.isDirectlyUnder (toNode h t) (some (toNode h' t')) = (h == h' + 1) ∧
+    Src.Node.isDirectlyUnder (toNode h t) none = false := by
+  refine ⟨?_, rfl⟩
+  cases t with
+  | mk n ks =>
+    cases t' with
+    | mk n' ks' =>
+      simp only [Src.Node.isDirectlyUnder, toNode]
+      by_cases hh : h = h' + 1
+      · subst hh
+        have : (((h' + 1 : Nat) : Int) == (h' : Int) + 1) = true := by simp
+        simp [this]
+      · have a : (h == h' + 1) = false := by simpa using hh
+        have b : (((h : Nat) : Int) == (h' : Int) + 1) = false := by
+          simp only [beq_eq_false_iff_ne, ne_eq]; omega
+        rw [a, b]
+
 end Gtree
